@@ -93,6 +93,18 @@ inductive Api where
   | asdict | astuple
   deriving DecidableEq, Repr, FromJson, ToJson, Inhabited
 
+/-- a callback of the call -/
+inductive Site where
+  | ser | filter | dictFactory | tupleFactory
+  deriving DecidableEq, Repr, FromJson, ToJson, Inhabited
+
+/-- fault injection: the `k`-th call (1-based) of the callback at `site` raises (which exception type is
+    harness-only variation: every type propagates alike) -/
+structure Fault where
+  site : Site
+  k : Nat
+  deriving DecidableEq, Repr, FromJson, ToJson, Inhabited
+
 structure Case where
   api : Api
   /-- `attrs.asdict` / `attrs.astuple` instead of `attr.asdict` / `attr.astuple` -/
@@ -104,6 +116,7 @@ structure Case where
   dictFactory : DKind
   tupleFactory : TF
   ser : SerMode
+  fault : Option Fault
   deriving Repr, FromJson, ToJson, Inhabited
 
 inductive Res where
@@ -117,6 +130,10 @@ structure Obs where
   argUnchanged : Bool
   /-- `type(x)(**asdict(x)) == x`, observed only for flat public classes (else `none`) -/
   roundtrip : Option Bool
+  /-- the injected fault was raised by the callback during the call -/
+  faultFired : Bool
+  /-- an identical second call (same argument, same options, after whatever ran in between) gave the same -/
+  stable : Bool
   deriving Repr, FromJson, ToJson, Inhabited
 
 /-! ## The fragment of Python used: hashability, `==` on hashable values, container constructors -/
@@ -421,10 +438,99 @@ def Case.opts (c : Case) : Opts :=
     tf := if c.ng then .tuple else c.tupleFactory,
     ser := match c.api with | .asdict => c.ser | .astuple => .off }
 
-def run (c : Case) : Except String Out :=
+/-- the call without fault injection -/
+def runPlain (c : Case) : Except String Out :=
   match c.api with
   | .asdict => asdictTop c.opts c.recurse c.value
   | .astuple => astupleTop c.opts c.recurse c.value
+
+/-! ## How often each callback is called by a call that completes -/
+
+def one (b : Bool) : Nat := if b then 1 else 0
+
+mutual
+/-- calls of callback `s` made by `_asdict_anything(val, …)` -/
+def cAny (o : Opts) (s : Site) : PVal → Nat
+  | .atom _ => one (s == .ser && o.ser != .off)
+  | .inst _ _ fs => one (s == .dictFactory) + cFields o s fs
+  | .coll _ xs => cItems o s xs
+  | .dict _ ps => one (s == .dictFactory) + cPairs o s ps
+/-- … by the loop body of `asdict` (recurse=True) for a field that passed the filter -/
+def cFieldVal (o : Opts) (s : Site) : PVal → Nat
+  | .atom _ => one (s == .ser && o.ser != .off)
+  | .inst _ _ fs =>
+    one (s == .ser && o.ser != .off) +
+      (if o.ser == .wrap then 0 else one (s == .dictFactory) + cFields o s fs)
+  | .coll _ xs => one (s == .ser && o.ser != .off) + (if o.ser == .wrap then 0 else cItems o s xs)
+  | .dict _ ps =>
+    one (s == .ser && o.ser != .off) +
+      (if o.ser == .wrap then 0 else one (s == .dictFactory) + cPairs o s ps)
+def cFields (o : Opts) (s : Site) : List (FI × PVal) → Nat
+  | [] => 0
+  | (f, v) :: r =>
+    one (s == .filter && o.filter != .none) + (if passes o.filter f v then cFieldVal o s v else 0) + cFields o s r
+def cItems (o : Opts) (s : Site) : List PVal → Nat
+  | [] => 0
+  | v :: r => cAny o s v + cItems o s r
+def cPairs (o : Opts) (s : Site) : List (PVal × PVal) → Nat
+  | [] => 0
+  | (k, v) :: r => cAny o s k + cAny o s v + cPairs o s r
+end
+
+/-- `asdict`, recurse=False: the filter for every field, the serializer for every passing one -/
+def cFlat (o : Opts) (s : Site) : List (FI × PVal) → Nat
+  | [] => 0
+  | (f, v) :: r =>
+    one (s == .filter && o.filter != .none) +
+      (if passes o.filter f v then one (s == .ser && o.ser != .off) else 0) + cFlat o s r
+
+mutual
+/-- calls made by `astuple` for one field value (every `astuple` invocation ends with one `tuple_factory` call) -/
+def cTField (o : Opts) (s : Site) : PVal → Nat
+  | .atom _ => 0
+  | .inst _ _ fs => one (s == .tupleFactory) + cTFields o s fs
+  | .coll _ xs => cTMembers o s xs
+  | .dict _ ps => cTPairs o s ps
+def cTMember (o : Opts) (s : Site) : PVal → Nat
+  | .inst _ _ fs => one (s == .tupleFactory) + cTFields o s fs
+  | .atom _ => 0
+  | .coll _ _ => 0
+  | .dict _ _ => 0
+def cTFields (o : Opts) (s : Site) : List (FI × PVal) → Nat
+  | [] => 0
+  | (f, v) :: r =>
+    one (s == .filter && o.filter != .none) + (if passes o.filter f v then cTField o s v else 0) + cTFields o s r
+def cTMembers (o : Opts) (s : Site) : List PVal → Nat
+  | [] => 0
+  | v :: r => cTMember o s v + cTMembers o s r
+def cTPairs (o : Opts) (s : Site) : List (PVal × PVal) → Nat
+  | [] => 0
+  | (k, v) :: r => cTMember o s k + cTMember o s v + cTPairs o s r
+end
+
+def cTFlat (o : Opts) (s : Site) : List (FI × PVal) → Nat
+  | [] => 0
+  | _ :: r => one (s == .filter && o.filter != .none) + cTFlat o s r
+
+/-- number of calls of callback `s` in a call on an attrs instance that runs to completion -/
+def calls (c : Case) (s : Site) : Nat :=
+  match c.value with
+  | .inst _ _ fs =>
+    (match c.api with
+     | .asdict => one (s == .dictFactory) + (if c.recurse then cFields c.opts s fs else cFlat c.opts s fs)
+     | .astuple => one (s == .tupleFactory) + (if c.recurse then cTFields c.opts s fs else cTFlat c.opts s fs))
+  | _ => 0
+
+/-- the injected fault is raised: the callback is called at least `k` times.  (Cases with a fault are only
+    generated where the call completes without it — `wf` —, so every call of the fault-free run happens.) -/
+def fires (c : Case) : Bool :=
+  match c.fault with
+  | none => false
+  | some f => 1 ≤ f.k && f.k ≤ calls c f.site
+
+/-- one call: an exception raised by a callback propagates -/
+def run (c : Case) : Except String Out :=
+  if fires c then .error "fault" else runPlain c
 
 def Res.ofExcept : Except String Out → Res
   | .ok v => .ok v
@@ -438,13 +544,14 @@ def publicName (s : String) : Bool := !s.startsWith "_"
 
 /-- "flat class with public names" (and `==` by value): where the round trip is observed -/
 def roundtripApplies (c : Case) : Bool :=
-  c.api == .asdict && c.filter == .none && c.ser == .off &&
+  c.api == .asdict && c.filter == .none && c.ser == .off && c.fault.isNone &&
   match c.value with
   | .inst _ h fs => h.isNone && fs.all (fun p => isAtom p.2 && publicName p.1.name && p.1.init)
   | _ => false
 
 def model (c : Case) : Obs :=
   { result := Res.ofExcept (run c), argUnchanged := true,
-    roundtrip := if roundtripApplies c then some true else none }
+    roundtrip := if roundtripApplies c then some true else none,
+    faultFired := fires c, stable := true }
 
 end Attrs.C13
